@@ -34,8 +34,7 @@ def exact_regime(N, n):
 def explore_design(res, tier):
     cfgs = [dict(n=4, sizes={2, 3, 4}, mixed=False, maxtotal=0), dict(n=3, sizes={2}, mixed=True, maxtotal=3)]
     if tier != "quick":
-        cfgs += [dict(n=5, sizes={2, 3, 4, 5}, mixed=False, maxtotal=0), dict(n=4, sizes={2}, mixed=True, maxtotal=3),
-                 dict(n=6, sizes={2, 3}, mixed=False, maxtotal=0)]
+        cfgs += [dict(n=5, sizes={2, 3, 4, 5}, mixed=False, maxtotal=0), dict(n=4, sizes={2}, mixed=True, maxtotal=3)]
 
     def one(c):
         cfg = tlc.cfg_text({"Kind": "hg", "Node": set(range(1, c["n"] + 1)), "Sizes": c["sizes"], "Mixed": c["mixed"],
@@ -95,17 +94,27 @@ def gen_large(rng):
 
 
 def gen_background(rng):
-    """many unit-weight pairs plus a few heavy hyperedges on fresh nodes: validated and non-validated rows"""
-    n = rng.randint(9, 14)
+    """many light hyperedges on a core (N large) plus graded heavier ones on rarely used nodes: tables with
+    validated and non-validated rows and p-values on both sides of the levels i x bonf (step-up matters)"""
+    n = rng.randint(11, 16)
     edges = {}
-    core = list(range(1, n - 3))
-    for _ in range(rng.randint(12, 30)):
-        e = tuple(sorted(rng.sample(core, rng.choice([2, 2, 3]))))
+    ncore = n - rng.randint(4, 6)
+    core = list(range(1, ncore + 1))
+    for _ in range(rng.randint(40, 120)):                      # pairs
+        e = tuple(sorted(rng.sample(core, 2)))
         edges[e] = edges.get(e, 0) + 1
-    fresh = list(range(n - 3, n + 1))
-    for size in rng.sample([2, 3], rng.randint(1, 2)):
-        e = tuple(sorted(rng.sample(fresh, size)))
-        edges[e] = rng.randint(3, 9)
+    for _ in range(rng.randint(0, 45)):                        # triples
+        e = tuple(sorted(rng.sample(core, 3)))
+        edges[e] = edges.get(e, 0) + 1
+    rare = list(range(ncore + 1, n + 1))
+    rng.shuffle(rare)
+    for _ in range(rng.randint(1, 3)):
+        if len(rare) >= 2:
+            e = tuple(sorted((rare.pop(), rare.pop() if rng.random() < 0.8 else rng.choice(core))))
+            edges[e] = edges.get(e, 0) + rng.choice([2, 3, 3, 4, 4, 5, 6])
+    if rng.random() < 0.6 and len(rare) >= 1:
+        e = tuple(sorted(rare[:1] + rng.sample(core, 2))) if len(rare) < 3 else tuple(sorted(rare[:3]))
+        edges[e] = edges.get(e, 0) + rng.randint(1, 4)
     return n, edges
 
 
@@ -144,6 +153,8 @@ def observe(b, obj, edges, mx, mp, cid):
         for size, df in out.items():
             n = int(size)
             rows = [(tuple(e), float(p), bool(f)) for e, p, f in zip(df["edge"], df["pvalue"], df["fdr"])]
+            if not rows:
+                continue                     # an empty table reports nothing: neither demanded nor forbidden
             N = sum(w for e, w in edges.items() if len(e) == n)
             ex = exact_regime(N, n)
             den = N ** (n * N) if ex else 0
@@ -198,7 +209,7 @@ def _batch(args):
         shutil.rmtree(wd, ignore_errors=True)
 
 
-def validate(cases, procs=12, timeout=1800):
+def validate(cases, procs=8, timeout=1800):
     per = max(10, len(cases) // procs + 1)
     jobs = [(cases[i:i + per], list(range(i, min(len(cases), i + per))), timeout) for i in range(0, len(cases), per)]
     rj, par, states = [], {}, 0
@@ -246,7 +257,8 @@ def judge_large(par, n, rows):
         for (e, p, f), q in zip(rows, ps):
             if f != (q < Fraction(istar, M)):
                 failed.append("svh_validated_iff_below_threshold")
-    return sorted(set(failed)), skipped, istar
+    stepup = istar >= 2 and any(Fraction(1, M) <= q < Fraction(istar, M) for q in ps)
+    return sorted(set(failed)), skipped, (istar, stepup)
 
 
 # ---------------------------------------------------------------------------------------------
@@ -256,8 +268,8 @@ def run(res, tier, seed):
     design = pool.submit(explore_design, res, tier)
     rng = random.Random(seed * 15485863 + 19)
     fams = ("ident", "sparse", "str", "zero")
-    plan = [(gen_exact, 150 if quick else 3000), (gen_large, 90 if quick else 2500), (gen_background, 40 if quick else 800)]
-    n_mp = 3 if quick else 60
+    plan = [(gen_exact, 90 if quick else 1200), (gen_large, 50 if quick else 800), (gen_background, 50 if quick else 600)]
+    n_mp = 3 if quick else 40
     cases, descr, raws = [], [], []
     i = 0
     for gen, count in plan:
@@ -291,7 +303,7 @@ def run(res, tier, seed):
             raise tlc.TLCError("harness and SVH.tla disagree on the exact regime: %s" % json.dumps(descr[idx]))
         rejected[idx] = list(failed)
     # outside the exact regime: the tails of the statement over Fractions, parameters from TLC
-    n_exact = n_large = n_large_rows = n_exact_rows = skipped = validated_rows = 0
+    n_exact = n_large = n_large_rows = n_exact_rows = skipped = validated_rows = both = stepup = 0
     for idx, c in enumerate(cases):
         for s in c["sizes"]:
             validated_rows += sum(1 for r in s["rows"] if r["fdr"])
@@ -305,8 +317,10 @@ def run(res, tier, seed):
             n_large += 1
             n_large_rows += len(s["rows"])
             rows = [(tuple(r["e"]), raws[idx][s["n"]][k][1], r["fdr"]) for k, r in enumerate(s["rows"])]
-            failed, sk, _ = judge_large(p, s["n"], rows)
+            failed, sk, (istar, su) = judge_large(p, s["n"], rows)
             skipped += sk
+            stepup += 1 if su else 0
+            both += 1 if 0 < istar < len(rows) else 0
             if failed:
                 rejected.setdefault(idx, [])
                 rejected[idx] = sorted(set(rejected[idx]) | set(failed))
@@ -322,7 +336,8 @@ def run(res, tier, seed):
             svh_calls=len(cases), svh_calls_mp=sum(1 for d in descr if d["mp"]),
             svh_size_tables_exact_in_tlc=n_exact, svh_rows_exact_in_tlc=n_exact_rows,
             svh_size_tables_tail_over_fractions=n_large, svh_rows_tail_over_fractions=n_large_rows,
-            svh_validated_rows=validated_rows, svh_threshold_ties_skipped=skipped)
+            svh_validated_rows=validated_rows, svh_tables_with_validated_and_not=both,
+            svh_tables_where_step_up_matters=stepup, svh_threshold_ties_skipped=skipped)
     pick = max(range(len(cases)), key=lambda k: sum(1 for s in cases[k]["sizes"] for r in s["rows"] if r["fdr"]))
     res.sample({"svh_input": descr[pick], "returned": {str(k): [[list(map(str, e)), p, f] for e, p, f in v]
                                                        for k, v in raws[pick].items()}})
